@@ -10,9 +10,9 @@ static std::string handle(const std::string& cmd, const std::string& args) {
   std::vector<std::string> w = words(args);
   if (cmd == "operexpr") {      // operexpr <hex text>: the operation names (hex), or EXC
     std::string expr = w.empty() || w[0] == "-" ? std::string() : hv::hex_decode(w[0]);
-    alarm(5);    // a text of a few bytes is parsed in microseconds: a loop that does not stop is ended here (SIGALRM)
+    hv::cpu_alarm(5);    // a text of a few bytes is parsed in microseconds: a loop that does not stop is ended here (SIGALRM)
     std::vector<std::string> r = gemmi::parse_operation_expr(expr);
-    alarm(0);
+    hv::cpu_alarm(0);
     // the names of a long range are summarised: count, first and last (the model expands them the same way)
     std::string out = std::to_string(r.size());
     size_t shown = 0;
